@@ -51,6 +51,10 @@ CLASSES = {
     "OpenDocumentImage": ("image_index", "unit_name"),
     "EpubImage": ("image_index", "unit_index"),
     "PdfImage": ("index", "unit_name"),
+    # legacy formats (outside the property's quantifier, but their document views are under contract (e) and the accessors are the same code shape):
+    "DocImage": ("image_number", "unit_number"),
+    "PptImage": ("image_index", ("slide_number", 0)),       # "None or the stored slide" (a slide number 0 means unknown)
+    "XlsImage": ("image_index", None),
     "RtfImage": ("image_index", "page_number"),     # stores the KIND of the picture (\\pngblip, \\jpegblip ...), not a content type; sizes are twips
 }
 KIND_TABLE = {"png": "image/png", "jpeg": "image/jpeg", "jpg": "image/jpeg"}       # raster kinds of the property -> the matching content type
